@@ -1,4 +1,5 @@
 import RotondaModel.Model.HttpServer
+import RotondaModel.Model.HttpRegistry
 /-! Line driver for the HttpServer model (production HTTP server; attached to C12). One connection per line.
 
 case  := reg '|' shape '|' stream '|' deps '|' meta
@@ -113,7 +114,40 @@ def showOuts (os : List Out) : String :=
 
 def words (s : String) : List String := (s.splitOn " ").filter (· ≠ "")
 
+/-! registry churn cases: `R|<mode>|ev ev …` (ev := 'r' id '.' ('s'|'n') '.' claims | 'd' id | 'q' path | 'b' path | 'f') -/
+namespace RegistryDriver
+open Rotonda.HttpRegistry
+
+def parseEv (t : String) : Option Ev :=
+  match t.toList with
+  | 'r' :: rest =>
+    match (String.ofList rest).splitOn "." with
+    | [id, sub, claims] => do
+      let cs ← (if claims == "" then some [] else (claims.splitOn "+").mapM (·.toNat?))
+      some (.reg (← id.toNat?) (sub == "s") cs)
+    | _ => none
+  | 'd' :: rest => (String.ofList rest).toNat?.map Ev.drop
+  | 'q' :: rest => (String.ofList rest).toNat?.map Ev.req
+  | 'b' :: rest => (String.ofList rest).toNat?.map Ev.begin
+  | ['f'] => some .finish
+  | _ => none
+
+def showAns : Ans → String
+  | .proc id => s!"P{id}"
+  | .notFound => "404"
+  | .fixed => "S"
+
+def runLine (line : String) : String :=
+  match line.splitOn "|" with
+  | [_, _, evs] =>
+    match ((evs.splitOn " ").filter (· ≠ "")).mapM parseEv with
+    | some h => " ".intercalate ((answers h).map showAns)
+    | none => "bad-case"
+  | _ => "bad-case"
+end RegistryDriver
+
 def runCase (v : Rotonda.HttpServer.Variant) (line : String) : String :=
+  if line.startsWith "R|" then RegistryDriver.runLine line else
   match line.splitOn "|" with
   | [reg, shape, stream, deps, _meta] =>
     if shape == "listen-conflict" then "listen-conflict"
